@@ -72,7 +72,6 @@ func (d *db) Scan(ctx context.Context, req *schema.ScanRequest) (*schema.Entries
 			Filters:       []store.FilterFn{store.IgnoreExpired, store.IgnoreDeleted},
 			InclusiveSeek: req.InclusiveSeek,
 			InclusiveEnd:  req.InclusiveEnd,
-			Offset:        req.Offset,
 		})
 	if err != nil {
 		return nil, err
@@ -81,7 +80,11 @@ func (d *db) Scan(ctx context.Context, req *schema.ScanRequest) (*schema.Entries
 
 	entries := &schema.Entries{}
 
-	for l := 1; l <= limit; l++ {
+	// offset and limit count the entries that are returned: a reference whose
+	// key has been deleted or truncated is skipped and takes no slot of the page
+	skipped := uint64(0)
+
+	for len(entries.Entries) < limit {
 		key, valRef, err := r.Read(ctx)
 		if errors.Is(err, store.ErrNoMoreEntries) {
 			break
@@ -96,6 +99,11 @@ func (d *db) Scan(ctx context.Context, req *schema.ScanRequest) (*schema.Entries
 		}
 		if err != nil {
 			return nil, err
+		}
+
+		if skipped < req.Offset {
+			skipped++
+			continue
 		}
 
 		entries.Entries = append(entries.Entries, e)
